@@ -5,4 +5,4 @@ From Coq Require Import ExtrOcamlBasic.
 From Scenic Require Import C01.Prob C01.Sampler C01.Prior.
 Extraction Language OCaml.
 Extraction "model.ml" paths run generate_inner sample_all prior wf_dagb good_dagb same_setb needed dfs_order
-  prior_order draw_seq empty_memo weighted_tree choices_tree randint_tree bern_tree choices_index Qred.
+  prior_order draw_seq empty_memo weighted_tree choices_tree randint_tree bern_tree choices_index Qred mkq ndrange_tree wrange_tree.
